@@ -168,7 +168,8 @@ def _format_resname(res):
     out = ''
     if chain:
         out += chain + '-'
-    resname = res.get('resname')
+    # A specification can lack a residue name (e.g. "A-#45").
+    resname = res.get('resname') or ''
     out += resname
     if resname and resname[-1].isdigit():
         out += '#'
@@ -228,11 +229,9 @@ def annotate_modifications(molecule, modifications, mutations, resspec_counts):
         'chain', 'resname' and 'resid'. The second element is the mutation that
         should be applied.
     resspec_counts: list[dict]
-        List modified in place containing information about whether a
-        modification/mutation has been applied successfully. If the target is
-        found, the dictionary has one entry, {'success': True}. If not,
-        'success' is False and there are additional items to indicate information
-        about the failure.
+        List modified in place. For every modification/mutation request one
+        dictionary is appended that tells whether it matched a residue of this
+        molecule ('success'), and which request it was ('mutmod' and 'post').
 
     Raises
     ------
@@ -254,17 +253,12 @@ def annotate_modifications(molecule, modifications, mutations, resspec_counts):
                for key in 'chain resid resname insertion_code'.split()}
     for mutmod, key, library in associations:
         for resspec, mod in mutmod:
-            extra = False
             mod_found = _resiter(mod, residue_graph, resspec, library, key, molecule)
-            if not mod_found:
-                #if no mod found, return that there's a problem
-                resspec_counts.append({'success': False,
-                                       'mutmod': _format_resname(resspec),
-                                       'post': mod,})
-                extra = True
-    #return that everything's fine by default
-    if not extra:
-        resspec_counts.append({'success': True})
+            # Record for every request whether it was found in this molecule;
+            # whether it was found anywhere is decided at the system level.
+            resspec_counts.append({'success': mod_found,
+                                   'mutmod': _format_resname(resspec),
+                                   'post': mod,})
 
 class AnnotateMutMod(Processor):
     """
@@ -297,8 +291,14 @@ class AnnotateMutMod(Processor):
         annotate_modifications(molecule, self.modifications, self.mutations, self.resspec_counts)
         return molecule
     def run_system(self, system):
+        self.resspec_counts = []
         super().run_system(system)
-        _exit = sum([i['success'] for i in self.resspec_counts])
-        if _exit == 0:
-            LOGGER.warning('Residue specified by "{}" for mutation "{}" not found',
-                           self.resspec_counts[0]['mutmod'], self.resspec_counts[0]['post'])
+        # A request is only a problem if it is not found in any molecule.
+        found = {}
+        for entry in self.resspec_counts:
+            request = (entry['mutmod'], entry['post'])
+            found[request] = found.get(request, False) or entry['success']
+        for (mutmod, post), success in found.items():
+            if not success:
+                LOGGER.warning('Residue specified by "{}" for mutation "{}" not found',
+                               mutmod, post)
